@@ -424,7 +424,7 @@ pub fn eval_struct_lang<L: Language + 'static>(lang: &'static LangSig, h: &Histo
 pub fn run_hist_case_lang(rng: &mut Rng, which: &str) -> CaseOut {
     let (lang, ops): (&'static LangSig, Vec<&'static str>) = match which {
         "arith" => (&LARITH, vec!["#num", "var", "add", "mul", "sum", "let"]),
-        "pay" => (&LPAY, vec!["lam", "app", "var", "two", "cst", "neg", "flag", "idx", "#num", "#sym"]),
+        "pay" => (&LPAY, vec!["lam", "app", "var", "two", "cst", "neg", "flag", "idx", "nil", "#num", "#sym"]),
         // (bs / bbs bind over a bare slot; the term model has no field kind for that, they are covered by C16)
         _ => (&LNEST, vec!["nb", "b2", "mix", "bba", "three", "ch", "big", "tag", "kk", "#num"]),
     };
